@@ -47,7 +47,7 @@ func prop(t *rapid.T) {
 	cfg := chain.ProgCfg{
 		MaxDepth: rapid.IntRange(0, ev.Pick(4, 6)).Draw(t, "maxDepth"), MaxMw: 3, MaxStmts: ev.Pick(4, 5),
 		LongChains: rapid.IntRange(0, ev.Pick(9, 3)).Draw(t, "longChains") == 0,
-		Fallbacks:  true, Dynamic: true, EmptyPaths: true, AnyRoutes: true,
+		Fallbacks:  true, Dynamic: true, EmptyPaths: true, AnyRoutes: true, Controllers: true, RootGroups: true,
 		Script: chain.ScriptCfg{Writes: true, Data: true},
 	}
 	prog := chain.GenProgram(t, w, opts, cfg)
